@@ -1162,8 +1162,8 @@ def analyse_class(text, clsname, methods):
                         exposed = (rm, rtxt)
                         break
                 if exposed:
-                    when = sorted({('%s' if v_ else 'not (%s)') % t for f1 in wr for t, v_ in f1.A} -
-                                  {('%s' if v_ else 'not (%s)') % t for t, v_ in f2.A})
+                    common = frozenset.intersection(*[f1.A for f1 in wr]) if wr else frozenset()
+                    when = sorted(('%s' if v_ else 'not (%s)') % t for t, v_ in common - f2.A)
                     cond.setdefault(a, (exposed, mm, when))
         if cond:
             registers.append((m, sorted(cond), cond))
